@@ -1076,8 +1076,17 @@ static void run_path(uint64_t seed, uint64_t idx, const std::string& outdir, FIL
         tags.push_back(make_tag((uint32_t)e, 0));
     }
     Vec2 p0 = Vec2{0.125 * (double)g.range(-40, 40), 0.125 * (double)g.range(-40, 40)};
+    bool uniform = B.n > 1;  // equal widths, evenly spaced offsets centred on the spine: the (count, width, separation) form
+    for (uint64_t e = 0; e < B.n && uniform; e++)
+        uniform = w[e] == w[0] && fabs(off[e] - (off[1] - off[0]) * ((double)e - 0.5 * (double)(B.n - 1))) < 1e-12;
     if (B.n == 1 && g.coin()) rp.init(p0, w[0], off[0], B.tol, 1000, tags[0]);
-    else rp.init(p0, w.data(), off.data(), B.tol, 1000, tags.data());
+    else if (uniform && g.coin()) {
+        // this form allocates the elements itself and gives every element the same tag
+        free_allocation(rp.elements);
+        rp.elements = NULL;
+        rp.init(p0, B.n, w[0], off[1] - off[0], B.tol, 1000, tags[0]);
+        em.T("init-by-separation");
+    } else rp.init(p0, w.data(), off.data(), B.tol, 1000, tags.data());
     for (uint64_t e = 0; e < B.n; e++) {
         rp.elements[e].end_type = B.el[e].end;
         rp.elements[e].end_extensions = B.el[e].ext;
